@@ -1,7 +1,7 @@
 (* Properties/C02.v -- Values are matched by coordinates, not by position or file order.
    Statements about Model/Data.v (tied to verif/data.py by ./check C02); axiom-free. *)
-From Coq Require Import ZArith List Bool.
-From VF Require Import Model.Data Proofs.Data_lemmas Proofs.C03_proofs Proofs.Data_score Proofs.Data_coord Proofs.C02_order.
+From Coq Require Import ZArith QArith List Bool.
+From VF Require Import Model.Data Proofs.Data_lemmas Proofs.C03_proofs Proofs.Data_score Proofs.Data_coord Proofs.C02_order Model.Lookup Proofs.C02_lookup.
 Import ListNotations.
 Local Open Scope Z_scope.
 
@@ -49,9 +49,25 @@ Theorem C02_dimensions_depend_on_membership_only : forall keys keys' aux, keys <
   (forall x, (forall k, In k keys -> In x k) <-> (forall k, In k keys' -> In x k)) ->
   common_values keys aux = common_values keys' aux.
 Proof. exact common_values_order_free. Qed.
+(* threshold (and quantile) columns are matched by VALUE: each input lists its thresholds in its own order, possibly with extra
+   ones; the column delivered for t is the one that input stores for t, and a threshold the input does not store is not found *)
+Theorem C02_threshold_column_found_by_value : forall (A : Type) thr (cols : list A) t c,
+  distinct thr -> stores A thr cols t c -> stored_column A thr cols t = Some c.
+Proof. exact stored_column_by_value. Qed.
+Theorem C02_absent_threshold_is_not_found : forall (A : Type) thr (cols : list A) t,
+  (forall x, In x thr -> ~ (x == t)%Q) -> stored_column A thr cols t = None.
+Proof. exact absent_threshold_not_found. Qed.
+Print Assumptions C02_threshold_column_found_by_value.
 Print Assumptions C02_entry_order_inside_inputs_is_irrelevant.
 Print Assumptions C02_value_by_coordinate.
 Print Assumptions C02_common_values_order_free.
 
 Example C02_nonvacuous : first_index 7 [3; 7; 5; 7] = Some 1%nat /\ pos_of 5 [3; 7; 5; 7] = 2%nat.
 Proof. vm_compute. split; reflexivity. Qed.
+Example C02_lookup_nonvacuous : stored_column nat [10 # 1; 1 # 1; 5 # 2]%Q [7; 8; 9]%nat (5 # 2)%Q = Some 9%nat /\ distinct [10 # 1; 1 # 1; 5 # 2]%Q.
+Proof.
+  split; [vm_compute; reflexivity|]. intros i j x y Hi Hj Hxy.
+  destruct i as [|[|[|i]]]; destruct j as [|[|[|j]]]; cbn in Hi, Hj; try discriminate; try reflexivity;
+    try (destruct i; discriminate); try (destruct j; discriminate);
+    inversion Hi; inversion Hj; subst; vm_compute in Hxy; discriminate.
+Qed.
